@@ -190,6 +190,10 @@ Lemma aget_extend_other a action v k : k <> dname (action ++ s_attr_suffix) ->
   aget (extend_diff_attr a action v) k = aget a k.
 Proof. apply extend_get. Qed.
 
+Lemma rel_inv f n node kids : rel ws f (DN n node kids) ->
+  lab_ok ws f n node /\ map did (filter alive_d kids) = fkids f n /\ Forall (fun k => alive_d k = true -> rel ws f k) kids.
+Proof. intros H. inversion H; subst. auto. Qed.
+
 Lemma lab_of_rel f n node kids : rel ws f (DN n node kids) -> lab_ok ws f n node.
 Proof. intros H. inversion H; subst. assumption. Qed.
 
@@ -759,7 +763,7 @@ Proof.
   set (copyd := DN n (with_attrs node (aput (xattrs node) INSERT_NAME [])) nkids).
   set (r := real_insert_position (map erase tkids1) pos).
   pose proof (lids_NoDup ws f1 root Hwf1 d1 HR1 ltac:(rewrite Hid1; constructor)) as ND1.
-  pose proof (rel_get ws f1 qt d1 _ HR1 HLt1 HGt1) as HRt1. inversion HRt1 as [? ? ? HLab1 HK1 HA1]; subst.
+  pose proof (rel_get ws f1 qt d1 _ HR1 HLt1 HGt1) as HRt1. destruct (rel_inv f1 t tnode tkids1 HRt1) as (HLab1 & HK1 & HA1).
   assert (Ht : t < fnext f).
   { apply (lids_lt f st d t HI). apply (lids_sub qt d kt HLt HGt). destruct kt as [t0 ? ?]. cbn [did] in Hkt. subst t0. rewrite lids_unfold. now left. }
   assert (Hn : n < fnext f).
@@ -773,7 +777,7 @@ Proof.
   { apply (lids_NoDup ws f1 root Hwf1 _ HRt1). cbn [did]. pose proof (lids_desc ws f1 d1 HR1 t) as D. rewrite Hid1 in D.
     apply D. apply (lids_sub qt d1 _ HLt1 HGt1). rewrite lids_unfold. now left. }
   (* the subtree that moves stands for the same nodes in f' *)
-  inversion HRn as [? ? ? HLabn HKn HAn]; subst.
+  destruct (rel_inv f n node nkids HRn) as (HLabn & HKn & HAn).
   assert (NDn : NoDup (lids (DN n node nkids))).
   { apply (lids_NoDup ws f root Hwf _ HRn). cbn [did]. apply alive_iff; assumption. }
   assert (Hnn : ~ In n (fkids f n)).
@@ -802,10 +806,11 @@ Proof.
   - unfold f', insert_at. cbn. rewrite upd_same. fold (insert_kid pos n (fkids f1 t)). rewrite <- HK1.
     apply (rip_dt tkids1 pos copyd).
     + rewrite <- (map_length did), HK1. unfold f1. rewrite (fkids_detach f root n t Hwf Ht). exact C6.
-    + unfold copyd, alive_d. cbn [dlab]. unfold alive_w, is_deleted, ahas. destruct node as [tg at_ tx tl ks]. cbn [with_attrs xattrs].
-      rewrite aget_aput_other by (intros E; apply dname_inj in E; discriminate).
-      pose proof (proj2 (proj2 (proj2 (dlpath_snoc_inv qn d _ Hqn HLn HGn)))) as Hx. clear - HLn HGn Hqn.
-      destruct (dlpath_snoc_inv qn d _ Hqn HLn HGn) as (? & ? & ? & _ & _ & _ & _ & Hal). exact Hal.
+    + assert (Hakn : alive_d (DN n node nkids) = true)
+        by (destruct (dlpath_snoc_inv qn d _ Hqn HLn HGn) as (? & ? & ? & _ & _ & _ & _ & Hal0); exact Hal0).
+      unfold copyd, alive_d in *. cbn [dlab] in *. unfold alive_w, is_deleted, ahas in *.
+      destruct node as [tg at_ tx tl ks]. cbn [with_attrs xattrs] in *.
+      rewrite aget_aput_other by (intros E; apply dname_inj in E; discriminate). exact Hakn.
   - apply Forall_insert_kid; [|intros _; exact HRcopy].
     rewrite Forall_forall in *. intros k Hin Hak. apply (rel_frame ws f1 f' k (HA1 k Hin Hak)).
     intros x Hx. split; [apply Fl1|]. apply Fk. intros ->.
